@@ -26,7 +26,8 @@ THEOREMS = ['CC.C03_perm', 'CC.C03_rename', 'CC.C03_reverse', 'CC.C03_reref',
 THEOREMS += ['CC.C06_port_invariant_perm', 'CC.C06_port_invariant_rename', 'CC.C06_port_invariant_reverse', 'CC.C06_port_invariant_reref']
 LEAN_MODULE_EXTRA = ['CC.Properties.C01', 'CC.Properties.C06']
 OPEN_STATEMENTS = ['C03_statespace / C03_transient as theorems (need the C10 transfer theorem); decided per instance by the metamorphic oracle (state-space transfer and transient stream)']
-ASSUMPTIONS = ['invariance theorems are about the Spec; equality of reported values uses C01_sound + C01_unique (well-posed networks)',
+ASSUMPTIONS = ['C03_reported_* take validity (WF) and well-posedness of the TRANSFORMED network as hypotheses (not derived from the original); power invariance has no theorem of its own (power = V·conj(I) of invariant quantities, C01_power)',
+               'invariance theorems are about the Spec; equality of reported values uses C01_sound + C01_unique (well-posed networks)',
                'binary64 results compared within 1e-8 relative on instances with cond(A) < 1e8']
 
 NEG_KEYS = {'vs_ideal': ['V'], 'vs_lossy': ['V'], 'cs_ideal': ['I'], 'cs_lossy': ['I']}
@@ -130,7 +131,16 @@ def compare_ports(out, net, net2, sigma, ports, fail, tol, prng, npairs, admit=N
                 return ('ok', complex(open_circuit_impedance(n, x, y)))
             except Exception as e:
                 return ('err', tag(e))
-        if admit is not None and not admit(a, b):
+        adm = True if admit is None else admit(a, b)
+        if adm == 'isolated':
+            # a port terminal that hangs only on zero-admittance branches: the impedance is infinite under every naming
+            z1, z2 = z_of(net, a, b), z_of(net2, sigma[a], sigma[b])
+            out.count('port_isolated_compared')
+            for z in (z1, z2):
+                if z[0] == 'ok' and np.isfinite(z[1]):
+                    fail('port_isolated_not_infinite', nodes=(a, b), a=str(z1), b=str(z2)); return False
+            continue
+        if not adm:
             out.count('port_outside_domain'); continue
         c = max(reduced_cond(net, a, b), reduced_cond(net2, sigma[a], sigma[b]))
         if not c < 1e8:
@@ -175,13 +185,15 @@ def port_case(ctx, out, desc, tseed):
     out.nontrivial(('port', gen_net.shape(desc), len(dang)))
     from props import c06 as pc06
     jnet = gen_net.desc_to_json(desc)
+    zero_adm = {n: all(d['kind'] in ('open', 'cs_ideal') for d in desc['branches'] if n in (d['n1'], d['n2'])) for n in labels + dang}
     def admit(a, b):
         # the port impedance must be defined (unit-current injection consistent and determined: exact model), and the
         # case must not be the recorded C06 finding (a floating group of nodes leaves the pruned matrix singular)
         if ctx.driver is None or pc06.has_self_loop(desc) or pc06.has_vs_loop(desc): return False
+        if zero_adm.get(a) or zero_adm.get(b): return 'isolated'
         if pc06.port_facts(desc, a, b)['floating_island']: return False
         return bool(ctx.driver.call('port_spec', net=jnet, n1=a, n2=b)['defined'])
-    if compare_ports(out, net, net2, sigma, labels, fail, 1e-8, core.Rng(tseed, 'port'), 6, admit):
+    if compare_ports(out, net, net2, sigma, labels + dang, fail, 1e-8, core.Rng(tseed, 'port'), 8, admit):
         out.traces_validated += 1
 
 CNEG = {'dc_voltage_source': 'V', 'ac_voltage_source': 'V', 'dc_current_source': 'I', 'ac_current_source': 'I', 'complex_voltage_source': 'V'}
